@@ -257,7 +257,8 @@ CLAIMED["C05"] = (
     "the loop-nest builder, evaluated abstractly for 0..5 remaining strides over opaque tokens, realises every remaining stride exactly "
     "once with its own bound, its own source step and its own destination step (as the 2-D repeat dimension or as one loop) and places "
     "pointer arithmetic before its uses; the stride that seeds dynamic steps in get_step_ops is selected from steps and bounds (F-25, "
-    "fixed). Does not decide the arithmetic of largest_common_contiguous_block, of dynamic steps beyond the seed choice, nor byte-level "
+    "fixed); the common-contiguous-block search ends at a dynamic stride (violated on the tree: listed known finding F-28, specified by an "
+    "upstream sample). Does not decide the arithmetic of largest_common_contiguous_block, of dynamic steps beyond the seed choice, nor byte-level "
     "footprints.",
     "Identifier tokens src/source and dst/dest/destination carry the role (the file's own convention, 38 bindings checked); the "
     "abstract evaluation is bounded to at most 5 remaining strides; models of ForOp/Block/Region/CallOp/MuliOp/AddiOp are the "
